@@ -62,6 +62,8 @@ def gen_case(r, nops, K):
                 ops.append({"k": "collect_spread", "a": a, "sel": r.below(64), "own": True})
             else:
                 ops.append({"k": "collect_inc", "a": a, "sel": r.below(64), "own": True})
+        if r.chance(2, 3):      # boundary coincidences: positions whose lower / upper tick is the current tick, then small swaps
+            ops = c08.boundary_blocks(r, ops, nops)
         c["ops"] = ops[:nops]
         c["spread_scaled"] = r.chance(1, 2)
         c["inc_scaled"] = r.chance(1, 2)
